@@ -6,4 +6,29 @@ TEXTS = {
         "note": "Trusted: Lean kernel; the hand-written model's faithfulness is validated (not proved) by the correspondence run; which removeparam rules match is taken from the per-rule public matcher; rustc and third-party crates.",
         "technique": "Lean 4 theorem (model = spec, induction over the rule-name fold) + model/implementation correspondence check",
     },
+    "C01": {
+        "level": "Lean 4 model of the whole network engine (tokenizer, rule tokens, histogram bucket choice, sorted de-duplicated buckets, fusion, category split, precedence) with kernel-checked theorems relating it to rule-by-rule evaluation; every generated (list, tags, request) is answered by the real Engine, the compiled model and the reference and compared three ways; the theorem's hypotheses (token soundness, id separation) are evaluated per case.",
+        "note": "Trusted: Lean kernel; the hand-written engine model's faithfulness is validated (not proved) by the correspondence run against the real Engine on every generated case; seahash injectivity on the strings of a case; the regex crate on /re/ rules (external parameter); rustc and third-party crates.",
+        "technique": 'Lean 4 theorems (index completeness by induction over the rule list; engine = combine of scan) + model/implementation correspondence check',
+    },
+    "C04": {
+        "level": 'Lean 4 theorems on the reference verdict (blocked iff spec, antitone/monotone rule addition, structural badfilter cancellation) plus the engine model; correspondence on badfilter twin families and (L, L+x) pairs against the real engines.',
+        "note": "Trusted: Lean kernel; the hand-written engine model's faithfulness is validated (not proved) by the correspondence run against the real Engine on every generated case; seahash injectivity on the strings of a case; the regex crate on /re/ rules (external parameter); rustc and third-party crates.",
+        "technique": 'Lean 4 theorems (precedence and monotonicity by case analysis over rule categories) + correspondence check',
+    },
+    "C05": {
+        "level": 'Lean 4 theorem that a fused rule matches exactly when one of its members does (all nine matcher paths, AnyOf) and that per-bucket optimisation preserves lookups; correspondence on clusters built to fuse, three real engines compared with each other and with the model.',
+        "note": "Trusted: Lean kernel; the hand-written engine model's faithfulness is validated (not proved) by the correspondence run against the real Engine on every generated case; seahash injectivity on the strings of a case; the regex crate on /re/ rules (external parameter); rustc and third-party crates.",
+        "technique": 'Lean 4 theorems (fusion equivalence) + correspondence check',
+    },
+    "C13": {
+        "level": 'Lean 4 theorems that the chosen redirect is a maximum-priority unexcepted matching redirect option, that redirect-rule never blocks and that permissioned / non-redirectable resources are never served; correspondence over priority spellings and resource stores built from add_resource attempt sequences.',
+        "note": "Trusted: Lean kernel; the hand-written engine model's faithfulness is validated (not proved) by the correspondence run against the real Engine on every generated case; seahash injectivity on the strings of a case; the regex crate on /re/ rules (external parameter); rustc and third-party crates.",
+        "technique": 'Lean 4 theorems (fold invariant over the candidate list) + correspondence check',
+    },
+    "C15": {
+        "level": 'Lean 4 theorems that the CSP result is the set of matching enabled directives minus excepted ones, is invariant under permutation of the matched rules and empty for other request types; correspondence on csp clusters compared as sets, plus shuffle-invariance on the real engine.',
+        "note": "Trusted: Lean kernel; the hand-written engine model's faithfulness is validated (not proved) by the correspondence run against the real Engine on every generated case; seahash injectivity on the strings of a case; the regex crate on /re/ rules (external parameter); rustc and third-party crates.",
+        "technique": 'Lean 4 theorems (set equality, permutation invariance) + correspondence check',
+    },
 }
